@@ -2,6 +2,7 @@ package scen
 
 import (
 	"fmt"
+	"math"
 	"strings"
 
 	"mcrt"
@@ -121,6 +122,7 @@ func c06Programs(tier string) []*Spec {
 		prio []int // -1 = default
 	}
 	pats := []pat{{"default", []int{-1, -1, -1}}, {"desc", []int{2, 1, -1}}, {"ties", []int{1, 1, 0}}, {"mid", []int{-1, 0, -1}}}
+	// (explicit priorities at the ends of the int range are exercised by c06-extreme below)
 	type chg struct {
 		b, v int
 		lazy bool
@@ -177,6 +179,19 @@ func c06Programs(tier string) []*Spec {
 				sp.Main = append(sp.Main, Op{K: "refresh"}, Op{K: "refresh"})
 				out = append(out, sp)
 			}
+		}
+	}
+	// priorities at the ends of the int range, also next to popped bars (which get math.MinInt32 + k internally)
+	for _, pop := range []bool{false, true} {
+		for vi, vals := range [][]int{{math.MaxInt, math.MinInt, 0}, {-1, math.MaxInt, 1}, {math.MaxInt, 0, math.MinInt32}} {
+			sp := &Spec{Name: fmt.Sprintf("c06-extreme-%d-pop%v", vi, pop), Refresh: "manual", Q: -1, Pop: pop}
+			for i := 0; i < 3; i++ {
+				sp.Bars = append(sp.Bars, BarSpec{Total: 1, HasPrio: true, Prio: vals[i]})
+				sp.Main = append(sp.Main, Op{K: "add", B: i})
+			}
+			sp.Main = append(sp.Main, Op{K: "refresh"}, Op{K: "refresh"}, Op{K: "prio", B: 2, N: int64(math.MaxInt - 1)}, Op{K: "refresh"}, Op{K: "refresh"},
+				Op{K: "incr", B: 1, N: 1}, Op{K: "refresh"}, Op{K: "refresh"}, Op{K: "refresh"}, Op{K: "refresh"}, Op{K: "incr", B: 0, N: 1}, Op{K: "incr", B: 2, N: 1}, Op{K: "refresh"}, Op{K: "refresh"})
+			out = append(out, sp)
 		}
 	}
 	// priority change from a client thread while another refreshes; auto refresh
